@@ -717,6 +717,31 @@ Proof. exact rt_both_model. Qed.
 Check C16_rt : C16_rt_statement2.
 Print Assumptions C16_rt.
 
+(* THE EXCLUSION OF Known_C12 IN C16_rt IS NECESSARY, and the property as worded ("the Unicode serialization of a tuple
+   origin parses back to a URL with the same origin") is FALSE of the code (F-C16-1 = F-C12-1 at the level of origins):
+   for an adapter that satisfies all eight premises there is an input - https://xn--xn--ss-ztda/ - whose parse result has
+   the tuple origin (https, xn--xn--ss-ztda, 443), the domain is a fixed point of the IDNA step and outside
+   Known_C10_long, the ASCII serialization round-trips, the domain is in Known_C12, and the Unicode serialization
+   https://xn--<U+02EF><U+02EF>ss is REJECTED by Url::parse (IdnaError).  Confirmed on the real crates:
+   Url::parse("https://xn--xn--ss-ztda/").unwrap().origin().unicode_serialization() == "https://xn--\u{2ef}\u{2ef}ss" and
+   Url::parse of that is Err(IdnaError) (known mode of the C16 harness, KNOWN-FINDING F-C16-1). *)
+Theorem C16_rt_unicode_refuted : rt_unicode_refuted_stmt.
+Proof. exact rt_unicode_refuted. Qed.
+Check C16_rt_unicode_refuted :
+  exists A,
+    (AdapterOK A /\ AdapterUSV A /\ NvNoTrunc A /\ NvIdem A /\ AsciiNoMark A /\ MapPrefix A /\ NvMapFix A /\ NvNoGrow A)
+    /\ exists input u s d p,
+         url_parse true (Host.host_parse (idna_of A true)) Host.host_parse_opaque Host.host_display input = POk u
+         /\ url_origin true (Host.host_parse (idna_of A true)) Host.host_parse_opaque Host.host_display 0 u = OOk (Tuple s (HDomain d) p) 0
+         /\ idna_of A true d = Some d /\ Known_C10_long d = false /\ Known_C12 A true d DENY_URL HAllow = true
+         /\ (exists w, url_parse true (Host.host_parse (idna_of A true)) Host.host_parse_opaque Host.host_display
+                         (ascii_serialization Host.host_display (Tuple s (HDomain d) p)) = POk w
+                       /\ url_origin true (Host.host_parse (idna_of A true)) Host.host_parse_opaque Host.host_display 0 w
+                          = OOk (Tuple s (HDomain d) p) 0)
+         /\ unicode_serialization Host.host_display (origin_tu A true) (Tuple s (HDomain d) p) = t_https_xn_u
+         /\ url_parse true (Host.host_parse (idna_of A true)) Host.host_parse_opaque Host.host_display t_https_xn_u = PErr IdnaError.
+Print Assumptions C16_rt_unicode_refuted.
+
 (* non-vacuity of C16_rt / C16_rt_unicode_model, executed inside Coq (adapter lowsan4, whose eight premises are
    C16_unicode_host_premises_hold): HTTPS://A.B<u-umlaut>cher:443/x has the origin (https, a.xn--bcher-kva, 443); the domain is
    outside the known classes; the ASCII serialization is https://a.xn--bcher-kva, the Unicode serialization is the
